@@ -22,6 +22,8 @@ type entry struct {
 var checks = map[string]entry{
 	"C01": {"model_checking", props.C01},
 	"C02": {"model_checking", props.C02},
+	"C04": {"model_checking", props.C04},
+	"C05": {"model_checking", props.C05},
 	"C08": {"model_checking", props.C08},
 	"C09": {"model_checking", props.C09},
 	"C10": {"model_checking", props.C10},
